@@ -50,7 +50,7 @@ def main() -> None:
                         "for every input inside its stated bound (path tree exhausted, postcondition true on every leaf); "
                         "counterexamples are replayed natively before being reported. " + getattr(mod, "EXPLANATION", "")
                     ),
-                    "design_ref": f"DESIGN.md section 3, {pid}",
+                    "design_ref": f"DESIGN.md section 3 ({pid}, plan) and section 8.3 (what is built)",
                 },
                 "level_note": getattr(mod, "LEVEL_NOTE", None)
                 or (
